@@ -305,6 +305,11 @@ func run(c *fw.Ctx, idx int) {
 		if fault == "slow-progress" && didFire && err != nil && !(prior == "recursive" && modeWant == "direct") {
 			c.Violation("C16/pin/steady-progress-aborted", "a pin that kept making progress was aborted: "+err.Error(), detail)
 		}
+		// a transport-level failure of the preliminary pin/ls is a failure, not "not pinned"
+		lsTransport := didFire && faultStep == "pin/ls" && (fault == "non-json" || fault == "reset" || fault == "reset-mid-body" || strings.Contains(fault, "stall"))
+		if lsTransport && faultNth == 0 && nAdd+nUpd > 0 {
+			c.Violation("C16/pin/requests-sent-after-failed-pin-ls/"+fault, fmt.Sprintf("pin/ls failed at the transport level (%s), yet %d pin/add and %d pin/update requests were sent", fault, nAdd, nUpd), detail)
+		}
 		if prior == modeWant && nAdd+nUpd > 0 && !(didFire && faultStep == "pin/ls" && faultNth == 0) {
 			c.Violation("C16/pin/already-pinned-but-requested", fmt.Sprintf("already pinned %s, yet %d pin/add and %d pin/update requests were sent", prior, nAdd, nUpd), detail)
 		}
@@ -325,6 +330,9 @@ func run(c *fw.Ctx, idx int) {
 			c.Violation("C16/unpin/failure-reported-as-success/"+fault, "daemon/transport failure on pin/rm reported as success", detail)
 		}
 	case "pinlscid":
+		if err == nil && didFire && faultStep == "pin/ls" && (fault == "non-json" || fault == "reset" || fault == "reset-mid-body" || strings.Contains(fault, "stall")) {
+			c.Violation("C16/pinlscid/transport-failure-reported-as-status/"+fault, fmt.Sprintf("pin/ls failed at the transport level (%s) and PinLsCid answered status %d without error", fault, ls), detail)
+		}
 		if err == nil {
 			want := api.IPFSPinStatusUnpinned
 			if held == modeWant {
